@@ -242,8 +242,12 @@ def run_trace_shards(ctx, module, shard_files, metabase, env_extra=None, paralle
                 consumed += int(tlcval.unquote(line).split('|')[1])
                 ok = True
         if not ok:
-            tail = '\n'.join(l for l in out.splitlines() if not TLC_NOISE.match(l))[-3000:]
-            errors.append('trace validation of %s did not complete (rc=%s):\n%s' % (path, rc, tail))
+            # the TLC message (up to the behaviour dump), the innermost evaluation positions and the tail
+            em = re.search(r'^Error: (?!The behavior)(.*?)(?=^Error: The behavior|\Z)', out, re.S | re.M)
+            msg = em.group(0)[:1200] if em else ''
+            pos = re.findall(r'^\d+\. (Line .*)$', out, re.M)
+            tail = '\n'.join(l for l in out.splitlines() if not TLC_NOISE.match(l) and not l.startswith('"SIG|'))[-600:]
+            errors.append('trace validation of %s did not complete (rc=%s):\n%s\ninnermost: %s\n...%s' % (path, rc, msg, ' | '.join(pos[-3:]), tail))
     return sigs, consumed, errors
 
 
@@ -545,4 +549,7 @@ def main(root, argv):
     if cmd == 'selftest':
         from . import selftest
         return selftest.run(ctx, args[1:])
+    if cmd == 'robust':
+        from . import selftest
+        return selftest.robust(ctx, args[1:])
     return check_property(ctx, cmd, replay)
